@@ -12,6 +12,7 @@ from mirsym.harness import *
 from mirsym.engine import NONE, SOME, OK, Coro
 
 ID = 'C29'
+TECHNIQUE = 'symbolic execution of rustc MIR (path-forking) + z3 SMT queries per path incl. modified-constant jobs (PROBE_LIMIT := 4); violations reported on the solver verdict (module is pub(crate))'
 CRATES = ['jj-lib']
 NATIVE = None
 NATIVE_CONFIRM = False     # eol.rs is pub(crate): no public entry point for a native runner
